@@ -63,7 +63,10 @@ Definition spec_C01 (i o : term) : bool :=
       let q := profile_of (gn o 1) in
       let r := gn o 2 in
       if valid_b q then
-        String.eqb (gs (gn r 0)) "ok" && term_eqb (gn r 2) (of_profile (normalize q)) && String.eqb (gs (gn r 1)) (gs (gn r 3))
+        (* write-then-parse yields normalize q; when q is already normal (no label the encoder has to
+           drop) it re-serializes to identical bytes *)
+        String.eqb (gs (gn r 0)) "ok" && term_eqb (gn r 2) (of_profile (normalize q)) &&
+        (String.eqb (gs (gn r 1)) (gs (gn r 3)) || negb (term_eqb (of_profile (normalize q)) (of_profile q)))
       else true
     else negb (String.eqb (gs (gn o 0)) "panic")
   else if String.eqb op "ser" then
